@@ -2234,7 +2234,11 @@ bool mcount_is_main_executable(const char *filename, const char *exename)
  */
 static void __attribute__((constructor)) mcount_init(void)
 {
+	int saved_errno = errno;
+
 	mcount_startup();
+	/* the traced program must start with the errno it would have had without us */
+	errno = saved_errno;
 }
 
 static void __attribute__((destructor)) mcount_fini(void)
